@@ -105,18 +105,31 @@ theorem range_failure_rolls_back (b : Bool) (c : Nat) (cbs : List Cb) :
       | err x => simp only [range, hg, Prod.mk.injEq] at h; obtain ⟨rfl, _, _⟩ := h; exact roll _ _ hk'
       | pending => simp only [range, hg, Prod.mk.injEq] at h; obtain ⟨rfl, _, _⟩ := h; exact roll _ _ hk'
       | val v =>
-        cases hc : commit s1 c with
-        | mk s2 oe =>
-          cases cb with
-          | panic => simp only [range, hg, Prod.mk.injEq] at h; obtain ⟨rfl, _, _⟩ := h; exact roll _ _ hk'
-          | stop =>
+        cases cb with
+        | panic => simp only [range, hg, Prod.mk.injEq] at h; obtain ⟨rfl, _, _⟩ := h; exact roll _ _ hk'
+        | stop =>
+          cases hc : commit s1 c with
+          | mk s2 oe =>
             cases oe with
             | some x => simp only [range, hg, hc, Prod.mk.injEq] at h; obtain ⟨rfl, _, _⟩ := h; exact roll _ _ hk'
             | none =>
               simp only [range, hg, hc, if_true, Prod.mk.injEq] at h
               obtain ⟨_, _, rfl⟩ := h
               simp at he
-          | continue_ =>
+        | continue_ =>
+          cases hc : commit s1 c with
+          | mk s2 oe =>
+            cases oe with
+            | some x => simp only [range, hg, hc, Prod.mk.injEq] at h; obtain ⟨rfl, _, _⟩ := h; exact roll _ _ hk'
+            | none =>
+              simp only [range, hg, hc] at h
+              repeat' split at h
+              all_goals first
+                | exact ih _ _ _ _ _ h he k' hk'
+                | (simp only [Prod.mk.injEq] at h; obtain ⟨_, _, rfl⟩ := h; simp at he)
+        | put w =>
+          cases hc : commit (put s1 [w]).1 c with
+          | mk s2 oe =>
             cases oe with
             | some x => simp only [range, hg, hc, Prod.mk.injEq] at h; obtain ⟨rfl, _, _⟩ := h; exact roll _ _ hk'
             | none =>
